@@ -46,6 +46,7 @@ fn run_named(name: &str, tier: &str, seed: u64, standin: bool) -> String {
         (false, "c04") => { c04::search(&mut r, tier, seed); true }
         (false, "c06") => { c06::search(&mut r, tier, seed); true }
         (false, "c05") => { c05::search(&mut r, tier, seed); true }
+        (false, "c05mo") => { c05::search_mo(&mut r, tier, seed); true }
         (true, "map_iters") => { c05::standin_map_iters(&mut r); true }
         (true, "orswot_iter") => { c04::standin_orswot_iter(&mut r); true }
         (true, "identifier_between") => { c12::standin_identifier_between(&mut r, tier); true }
@@ -74,12 +75,14 @@ fn replay_file(path: &str) -> String {
     let input = cex["input"].as_str().unwrap_or("");
     let mut r = Report::new(search);
     r.want = Some((check.to_string(), input.to_string()));
+    let sd = cex["seed"].as_u64().unwrap_or(0);
     let known = match search {
-        "c10" => { c10::search(&mut r, "thorough", 0); true }
-        "c11" => { c11::search(&mut r, "thorough", 0); true }
-        "c04" => { c04::search(&mut r, "thorough", 0); true }
-        "c06" => { c06::search(&mut r, "thorough", 0); true }
-        "c05" => { c05::search(&mut r, "thorough", 0); true }
+        "c10" => { c10::search(&mut r, "thorough", sd); true }
+        "c11" => { c11::search(&mut r, "thorough", sd); true }
+        "c04" => { c04::search(&mut r, "thorough", sd); true }
+        "c06" => { c06::search(&mut r, "thorough", sd); true }
+        "c05" => { c05::search(&mut r, "thorough", cex["seed"].as_u64().unwrap_or(0)); true }
+        "c05mo" => { c05::search_mo(&mut r, "thorough", cex["seed"].as_u64().unwrap_or(0)); true }
         "map_iters" => { c05::standin_map_iters(&mut r); true }
         "orswot_iter" => { c04::standin_orswot_iter(&mut r); true }
         "gset_merge" => { c11::standin_gset_merge(&mut r); true }
